@@ -63,6 +63,44 @@ theorem C19_recycle_waits_all (s s' : St) (k : Nat) (h : step s (.retRelease k t
   · exact c
   · rw [if_pos ⟨trivial, c⟩] at hp; exact absurd hp (by simp)
 
+/-- **C19, a failed construction does not poison attempts beyond the cooldown.** An `acquire` may answer
+    null *without trying the caller's constructor* only if a construction of that key failed at some time
+    `f` and the caller's cooldown has not yet passed (`now < f + cd`); in particular never for a key whose
+    constructions never failed, and never with cooldown 0. -/
+theorem C19_no_poison_beyond_cooldown (s s' : St) (k cd : Nat) (h : step s (.retAcquireNoCtor k cd) = .ok s') :
+    ∃ f, (s.item k).lastFail = some f ∧ s.now < f + cd := by
+  obtain ⟨hp, _⟩ := step_ok s s' _ h
+  simp only [pre] at hp
+  cases hl : (s.item k).lastFail with
+  | none => rw [hl] at hp; simp at hp
+  | some f =>
+    rw [hl] at hp
+    refine ⟨f, rfl, ?_⟩
+    by_cases c : s.now < f + cd
+    · exact c
+    · simp [c] at hp
+
+/-- `lastFail` is the time of a real failed constructor run: it only changes at a failing `ctorEnd`. -/
+theorem C19_lastFail_only_from_failed_ctor (s s' : St) (e : Ev) (h : step s e = .ok s') (k : Nat)
+    (hne : (s'.item k).lastFail ≠ (s.item k).lastFail) :
+    e = .ctorEnd k none ∧ (s'.item k).lastFail = some s.now ∨ (∃ l, e = .init l) := by
+  obtain ⟨hp, hs⟩ := step_ok s s' _ h
+  subst hs
+  cases e <;> simp only [eff] at hne ⊢
+  case init l => exact Or.inr ⟨l, rfl⟩
+  case ctorEnd k' obj =>
+    left
+    by_cases hk : k = k'
+    · subst hk
+      cases obj with
+      | none => simp [upd]
+      | some o => simp [upd] at hne
+    · simp [upd, hk] at hne
+  case retAcquire k' obj => cases obj <;> simp [upd] at hne <;> (split at hne <;> simp_all)
+  all_goals first
+    | exact absurd rfl hne
+    | (simp only [upd] at hne; split at hne <;> simp_all)
+
 /-! ### a referenced key always has a live object (state form of "never destroyed while borrowed") -/
 
 structure Inv (s : St) : Prop where
@@ -73,6 +111,7 @@ theorem eff_inv (s : St) (e : Ev) (hp : pre s e = none) (h : Inv s) : Inv (eff s
   cases e <;> simp only [eff]
   case init l => exact ⟨fun _ _ => rfl, fun k hc => by simp at hc⟩
   case tick n => exact ⟨h.ref_live, h.ctor_none⟩
+  case retAcquireNoCtor k cd => exact h
   case ctorBegin k =>
     have hl : (s.item k).live = none := by
       simp only [pre] at hp
@@ -190,5 +229,14 @@ example : (run {} [.init 1000, .ctorBegin 7, .ctorEnd 7 (some 100), .retAcquire 
     .retRelease 7 false, .tick 1051, .dtor 7 100]).isOk = true := by decide
 example : (run {} [.init 1000, .ctorBegin 7, .ctorEnd 7 (some 100), .retAcquire 7 (some 100),
     .dtor 7 100]).isOk = false := by decide
+
+
+/-! ### non-vacuity of the cooldown clause: a concurrent waiter inside the cooldown is answered null without its
+    constructor; the same answer at `now = f + cd` is rejected -/
+example : (run {} [.init 1000, .tick 10, .ctorBegin 7, .ctorEnd 7 none, .retAcquire 7 none, .tick 12,
+    .retAcquireNoCtor 7 5]).isOk = true := by decide
+example : (run {} [.init 1000, .tick 10, .ctorBegin 7, .ctorEnd 7 none, .retAcquire 7 none, .tick 15,
+    .retAcquireNoCtor 7 5]).isOk = false := by decide
+example : (run {} [.init 1000, .tick 10, .retAcquireNoCtor 7 1000000000]).isOk = false := by decide
 
 end Photon.ObjCache
